@@ -57,7 +57,7 @@ def check_phase_order(case):
         sys.stdout = so
     p1, p2 = r1["model"].pData, r2["model"].pData
     n1, n2 = len(p1.time), len(p2.time)
-    out.label("phases_%d" % len(perm), sc["iterator"])
+    out.label("phases_%d" % len(perm), sc["iterator"], sc["system"])
     if any(p.get("elastic") for p in sc["phases"]):
         out.label("aspect_ratio_from_strain_energy")
     k = min(n1, n2)
@@ -128,6 +128,10 @@ def check_phase_order(case):
 
 @st.composite
 def _phase_case(draw):
+    if draw(st.integers(0, 3)) == 3:
+        # ternary matrix: the multicomponent growth path keeps per-phase search directions and tie-line tables by index
+        sc = draw(scen.toy_multi_scenario(cap=150, max_phases=2, min_phases=2))
+        return {"sc": sc, "perm": [1, 0]}
     sc = draw(scen.toy_binary_scenario(cap=200, max_phases=3, undersat=False, allow_elastic=True))
     while len(sc["phases"]) < 2:
         sc = draw(scen.toy_binary_scenario(cap=200, max_phases=3, undersat=False, allow_elastic=True))
@@ -139,7 +143,7 @@ def _phase_case(draw):
 def clauses():
     cl = [
         Clause("phase_order", _phase_case, check_phase_order, quick=90, thorough=2000, shrink=False,
-               rule="generator: toy binary scenario with 2-3 precipitate phases (different solvus, energies, sites, shapes, volumes; needle/plate phases may take their aspect ratio from an elastic strain energy, calculateAspectRatio=True) and a non-identity permutation of the phase list (per-phase parameters move with the phase); both orders run under the same cap; "
+               rule="generator: toy binary scenario (3 in 4) or toy ternary scenario with two phases (1 in 4; multicomponent growth path) with 2-3 precipitate phases (different solvus, energies, sites, shapes, volumes; needle/plate phases may take their aspect ratio from an elastic strain energy, calculateAspectRatio=True) and a non-identity permutation of the phase list (per-phase parameters move with the phase); both orders run under the same cap; "
                     "oracle: same number of steps, same time grid, global histories equal and per-phase histories equal after applying the permutation; non-trivial: at least two phases hold particles"),
     ]
     try:
